@@ -351,7 +351,7 @@ func TestVerifC04MinPrefix(t *testing.T) {
 		rec.Exhaustive("every 2-cut segmentation of flight+3 bytes for " + c.Desc)
 	}
 	// (c) random k-cuts over flight + early data
-	nRand := kit.Tier(600, 60000)
+	nRand := kit.Tier(600, 30000)
 	for i := 0; i < nRand; i++ {
 		c := cfgs[rng.Intn(len(cfgs))]
 		e := earlies[rng.Intn(len(earlies))]
